@@ -417,7 +417,7 @@ struct Acc {
 pub fn run(tier: Tier) -> ! {
     let mut run = Run::new("C18", tier);
     let mut cfgs: Vec<(String, Cfg)> = vec![];
-    let g3 = g_upto(if tier == Tier::Quick { 3 } else { 4 });
+    let g3 = g_upto(if tier == Tier::Quick { 4 } else { 5 });
     for p in &g3 {
         cfgs.push(("G-singles".into(), Cfg::single(vec![CPat::new(p, 4)])));
     }
@@ -428,7 +428,7 @@ pub fn run(tier: Tier) -> ! {
         }
     }
     // lookaheads: polarity, several per mode, token types with several digits
-    for (i, l) in g_upto(2).iter().enumerate() {
+    for (i, l) in g_upto(if tier == Tier::Quick { 2 } else { 3 }).iter().enumerate() {
         if refsem::sem::Regex::parse(l).map(|r| r.nullable()).unwrap_or(true) {
             continue;
         }
